@@ -13,8 +13,10 @@ Explicits(c) == {[k |-> "none"],
 
 JoinCases == {[o |-> o, os |-> Str(o), c |-> c] : o \in OwnerP, c \in Names}
 OfOwners == {o \in OwnerP : o.host = "example.com" /\ Len(o.path.segs) <= 1}
-OfCases == UNION {{[kind |-> kd, id |-> o, ids |-> Str(o), c |-> c, explicit |-> IF e.k = "none" THEN e ELSE [k |-> e.k, iri |-> e.iri, s |-> Str(e.iri)]]
-                    : e \in IF HasProp(kd, c) THEN Explicits(c) ELSE {[k |-> "none"]}}
+\* the type names a value of each kind may carry (the generic names included); the rule does not depend on them
+TypeNamesOf(kd) == CASE kd = "actor" -> {"Person", "Service", "Actor"} [] kd = "object" -> {"Note", "Object"} [] OTHER -> {"-"}
+OfCases == UNION {{[kind |-> kd, tn |-> tn, id |-> o, ids |-> Str(o), c |-> c, explicit |-> IF e.k = "none" THEN e ELSE [k |-> e.k, iri |-> e.iri, s |-> Str(e.iri)]]
+                    : e \in (IF HasProp(kd, c) THEN Explicits(c) ELSE {[k |-> "none"]}), tn \in TypeNamesOf(kd)}
                   : kd \in {"object", "actor", "iri"}, o \in OfOwners, c \in Names}
 
 GenInit == cur = (CHOOSE o \in OwnerP : TRUE) /\ stack = <<>> /\ lst = <<>> /\ res = FALSE
